@@ -6,11 +6,11 @@ import (
 )
 
 type monad struct {
-	pkg  string
-	ty   func(x string) string
-	some string
-	chk  string
-	conv string // harness helper turning M[T] into M[[]int] without library code
+	pkg     string
+	ty      func(x string) string
+	some    string
+	chk     string
+	conv    string // harness helper turning M[T] into M[[]int] without library code
 	chkUnit string // harness helper for members returning M[fp.Unit] whose callback records what it received
 	// builder methods taking an already wrapped operand / a thunk, besides Ap and ApFunc
 	apWrapped map[string]string    // method -> wrapper function of the operand
@@ -156,10 +156,10 @@ func regMonad(mo monad) {
 		b.WriteString(mo.clause(m, "left-to-right", "", fmt.Sprintf("%s.%s(%s)(a%d)", p, m.Name, list(1, k, ff), k+1), fmt.Sprintf("[]int{chain(a%d, v[:%d])}", k+1, k)))
 		g.sub(m, k+1, k, b.String())
 	})
-	// Zip3(M a, M b, M c) = M Tuple3{a,b,c}
+	// Zip3(M a, M b, M c) = M Tuple3{a,b,c}; Zip(M a, M b) = M Tuple2{a,b} (where the package's Zip is listed in aliases)
 	reg(p+".func.Zip", func(g *generator, m *member) {
 		k := m.TP
-		if k != m.N || k != 3 {
+		if k != m.N || (k != 3 && k != 2) {
 			g.skip(m, "no defining equation known for this arity")
 			return
 		}
